@@ -893,7 +893,7 @@ fn parse_struct_literal_fields(
 
         let expr = parse_expression(tokens, id_gen, diagnostics);
 
-        if tokens.idx == start_idx {
+        if tokens.idx <= start_idx {
             // We haven't made forward progress, the syntax must be
             // very broken. Give up on this struct, consuming until
             // the closing brace.
@@ -1536,6 +1536,7 @@ fn parse_enum_body(
             break;
         }
 
+        let start_idx = tokens.idx;
         let mut variant = parse_variant(tokens, id_gen, diagnostics);
 
         if let Some(token) = tokens.peek() {
@@ -1581,6 +1582,12 @@ fn parse_enum_body(
                     msgtext!(" here, but reached the end of the file."),
                 ]),
             });
+            break;
+        }
+
+        if tokens.idx <= start_idx {
+            // No progress (e.g. we reached the end of the
+            // file), so stop rather than looping forever.
             break;
         }
     }
@@ -1840,6 +1847,7 @@ fn parse_type_arguments(
                 break token.position;
             }
         }
+        let start_idx = tokens.idx;
         let arg = parse_type_hint(tokens, id_gen, diagnostics);
         let arg_pos = arg.position.clone();
         args.push(arg);
@@ -1878,6 +1886,12 @@ fn parse_type_arguments(
             });
             break arg_pos;
         }
+
+        if tokens.idx <= start_idx {
+            // No progress (e.g. we reached the end of the
+            // file), so stop rather than looping forever.
+            break arg_pos;
+        }
     };
 
     require_token(tokens, diagnostics, ">");
@@ -1903,6 +1917,7 @@ fn parse_type_params(
             break;
         }
 
+        let start_idx = tokens.idx;
         let arg = parse_type_symbol(tokens, id_gen, diagnostics);
         let arg_pos = arg.position.clone();
         params.push(arg);
@@ -1939,6 +1954,12 @@ fn parse_type_params(
                     msgtext!(" here, but reached the end of the file."),
                 ]),
             });
+            break;
+        }
+
+        if tokens.idx <= start_idx {
+            // No progress (e.g. we reached the end of the
+            // file), so stop rather than looping forever.
             break;
         }
     }
